@@ -641,7 +641,9 @@ where
         value: Value<BigUint>,
         nb_bits: u32,
     ) -> Result<AssignedBigUint<F>, Error> {
-        let nb_limbs = max(nb_bits, 1).div_ceil(LOG2_BASE) as usize;
+        // A bound of 0 bits is handled as a bound of 1 bit (one limb is always assigned).
+        let nb_bits = max(nb_bits, 1);
+        let nb_limbs = nb_bits.div_ceil(LOG2_BASE) as usize;
         // All limbs will be bounded by 2^LOG2_BASE except possibly the most significant
         // one, which will be restricted further if LOG2_BASE does not divide nb_bits.
         let mut limb_size_bounds = vec![LOG2_BASE; nb_limbs];
